@@ -331,6 +331,105 @@ theorem dispatch_sends (hs : List Handler) :
     rcases h with ⟨i, c, t, r, s⟩
     cases c <;> cases r <;> cases s <;> simp [invokeOne]
 
+/-! ### histories on one client object: nothing is cached -/
+
+/-- observation steps (get_sleep_time, get_handlers, a loop iteration, a registration, reading the identity) and a
+raising `run` leave `sleeptime`, `jitter` and the presented identity as they are -/
+theorem observation_steps_keep_settings (p : Prims) (st : Session) (h : HStep)
+    (hobs : (∀ s, h ≠ .setSleep s) ∧ (∀ j, h ≠ .setJitter j) ∧
+      (∀ id s j c u q, h = .run id s j c u q → ∃ e, run p id c u q = .error e)) :
+    (applyStep p st h).1.sleeptime = st.sleeptime ∧ (applyStep p st h).1.jitter = st.jitter ∧
+    (applyStep p st h).1.ident = st.ident := by
+  obtain ⟨h1, h2, h3⟩ := hobs
+  cases h with
+  | setSleep s => exact absurd rfl (h1 s)
+  | setJitter j => exact absurd rfl (h2 j)
+  | run id s j c u q =>
+    obtain ⟨e, he⟩ := h3 id s j c u q rfl
+    simp only [applyStep, he, and_self]
+  | sleep u => simp only [applyStep]; split <;> exact ⟨rfl, rfl, rfl⟩
+  | getHandlers k => exact ⟨rfl, rfl, rfl⟩
+  | task silent t => simp only [applyStep]; split <;> exact ⟨rfl, rfl, rfl⟩
+  | reg r => simp only [applyStep]; split <;> exact ⟨rfl, rfl, rfl⟩
+  | «show» => simp only [applyStep]; split <;> exact ⟨rfl, rfl, rfl⟩
+
+/-- `get_sleep_time()` depends on the history only through the CURRENT `sleeptime`/`jitter` attributes: after any
+history that ends in the settings `(s, j)` the result is the stateless `getSleepTime s j u`, and for `s ≥ 0`,
+`j ≥ 0`, `u ∈ [0,1]` it lies in the band of those settings (a memoised jitter window would falsify this) -/
+theorem sleep_history_independent (p : Prims) (st₀ : Session) (pre : List HStep) (s j : Int) (u : Frac)
+    (hs : (sessionAfter p st₀ pre).sleeptime = some s) (hj : (sessionAfter p st₀ pre).jitter = some j) :
+    (applyStep p (sessionAfter p st₀ pre) (.sleep u)).2 = .frac (getSleepTime s j u) ∧
+    (0 ≤ s → 0 ≤ j → 0 ≤ u.num → u.num ≤ u.den →
+      s * (100 - j) * u.den ≤ (getSleepTime s j u).num ∧
+      (getSleepTime s j u).num ≤ s * (getSleepTime s j u).den) := by
+  refine ⟨?_, fun h0 h1 h2 h3 => sleep_band_scaled s j u h0 h1 h2 h3⟩
+  simp only [applyStep, Session.sleepTime, hs, hj]
+
+/-- whatever happened before: assigning the attributes (or a successful second `run`) makes the next
+`get_sleep_time()` the one of the new settings -/
+theorem sleep_after_update (p : Prims) (st₀ : Session) (pre : List HStep) (s j : Int) (u : Frac) :
+    (applyStep p (sessionAfter p st₀ (pre ++ [.setSleep s, .setJitter j])) (.sleep u)).2
+      = .frac (getSleepTime s j u) ∧
+    (∀ id c n q a, run p id c n q = .ok a →
+      (applyStep p (sessionAfter p st₀ (pre ++ [.run id s j c n q])) (.sleep u)).2 = .frac (getSleepTime s j u)) := by
+  constructor
+  · exact (sleep_history_independent p st₀ _ s j u
+      (by simp only [sessionAfter_append, sessionAfter_cons, sessionAfter_nil, applyStep])
+      (by simp only [sessionAfter_append, sessionAfter_cons, sessionAfter_nil, applyStep])).1
+  · intro id c n q a ha
+    exact (sleep_history_independent p st₀ _ s j u
+      (by simp only [sessionAfter_append, sessionAfter_cons, sessionAfter_nil, applyStep, ha])
+      (by simp only [sessionAfter_append, sessionAfter_cons, sessionAfter_nil, applyStep, ha])).1
+
+/-- identity is history independent: after any history, a successful `run` presents exactly the identity a fresh
+client would (id, aes_rand, keys, info of the NEW arguments); a raising `run` keeps the previous one -/
+theorem identity_history_independent (p : Prims) (st₀ : Session) (pre : List HStep) (id s j : Int) (c n q : Txt) :
+    (∀ a, run p id c n q = .ok a →
+      (applyStep p (sessionAfter p st₀ (pre ++ [.run id s j c n q])) .show).2 = .ident a) ∧
+    (∀ e, run p id c n q = .error e →
+      (sessionAfter p st₀ (pre ++ [.run id s j c n q])).ident = (sessionAfter p st₀ pre).ident) := by
+  constructor
+  · intro a ha
+    simp only [sessionAfter_append, sessionAfter_cons, sessionAfter_nil, applyStep, ha]
+  · intro e he
+    simp only [sessionAfter_append, sessionAfter_cons, sessionAfter_nil, applyStep, he]
+
+/-- dispatch is history independent: after ANY history on a fresh client (registrations interleaved with earlier
+dispatches, get_handlers calls, runs, sleeps) `get_handlers(k)` returns, and a loop iteration invokes, exactly what
+the registrations made so far prescribe — no handler list or name lookup survives from an earlier call -/
+theorem dispatch_history_independent (p : Prims) (pre : List HStep) :
+    (∀ k, (applyStep p (sessionAfter p {} pre) (.getHandlers k)).2 = .handlers (specHandlers (regsOf pre) k)) ∧
+    (∀ silent t, ((sessionAfter p {} pre).sleepTime ⟨0, 1⟩).isOk = true →
+      (applyStep p (sessionAfter p {} pre) (.task silent t)).2 = .events (specStep (regsOf pre) silent t) none) ∧
+    (∀ h, (sessionAfter p {} (pre ++ [h])).client.view =
+      (sessionAfter p {} pre).client.view ∨ ∃ r, h = .reg r) := by
+  obtain ⟨hw, _, _⟩ := session_registry p pre
+  refine ⟨fun k => ?_, fun silent t hok => ?_, fun h => ?_⟩
+  · simp only [applyStep]
+    rw [(getHandlers_spec _ hw k).2, specListC_session]
+  · obtain ⟨h1, _⟩ := loopStep_spec (sessionAfter p {} pre).client hw silent t
+    simp only [applyStep]
+    cases hst : (sessionAfter p {} pre).sleepTime ⟨0, 1⟩ with
+    | error e => simp [hst, Except.isOk, Except.toBool] at hok
+    | ok f =>
+      simp only [h1]
+      unfold specStepC specStep
+      simp only [specListC_session]
+  · simp only [sessionAfter_append, sessionAfter_cons, sessionAfter_nil]
+    cases h with
+    | reg r => exact Or.inr ⟨r, rfl⟩
+    | setSleep s => exact Or.inl rfl
+    | setJitter j => exact Or.inl rfl
+    | run id s j c u q => left; simp only [applyStep]; split <;> rfl
+    | sleep u => left; simp only [applyStep]; split <;> rfl
+    | «show» => left; simp only [applyStep]; split <;> rfl
+    | getHandlers k => exact Or.inl ((getHandlers_spec _ hw k).1.view hw)
+    | task silent t =>
+      left
+      have := (loopStep_spec (sessionAfter p {} pre).client hw silent t).2.view hw
+      simp only [applyStep]
+      split <;> exact this
+
 /-! ### the generated command table -/
 
 /-- obligations on the table regenerated from `BeaconCommand`: it is a function (no duplicate values), no member
